@@ -286,7 +286,7 @@ static inline std::string data_text (const DataItem &d) {
   std::string s = d.name.empty () ? "\t" : d.name + ":\t";
   switch (d.k) {
   case DataItem::BSS: return s + strfmt ("bss\t%zu\n", d.len);
-  case DataItem::REF: return s + "ref\t" + d.ref + (d.disp ? strfmt (", %ld", (long) d.disp) : "") + "\n";
+  case DataItem::REF: return s + "ref\t" + d.ref + strfmt (", %ld", (long) d.disp) + "\n";
   case DataItem::EXPR: return s + "expr\t" + d.ref + "\n";
   case DataItem::LREF:
     return s + strfmt ("lref\tL%d", d.lab) + (d.lab2 >= 0 ? strfmt (", L%d", d.lab2) : "")
